@@ -132,7 +132,16 @@ fn run(ctx: &Ctx) -> Run {
             if rng.below(64) == 0 {
                 crate::orc::failed_call_history(&mut rng);
             }
-            let (list, target) = random_list(&mut rng);
+            let (list, target) = if rng.below(40) == 0 {
+                // a long list of same-resolution cells (length on a power-of-two boundary, or large) expanded by 0, 1 or 2 levels
+                let set = gen::cell_set(&mut rng, "sized");
+                let r = set.first().map(|c| c.res).unwrap_or(1);
+                let up = if set.len() > 5000 { rng.below(2) as i32 } else { rng.below(3) as i32 };
+                (set, (r + up).min(MAX_RES))
+            } else {
+                random_list(&mut rng)
+            };
+            run.count(&format!("input_len.{}", gen::len_bucket(list.len())));
             run.count(&format!("target.{:+03}", target));
             check_uncompact(run, &list, target);
         }
